@@ -101,7 +101,7 @@ func c07Trans(c *Ctx, pre *Node, st Step, res *Result, post *State) ([]Violation
 func checkC07(e *RunEnv) *CheckResult {
 	names := []string{"test/x", "test/y", "test.c", "test-data", "test0", "t"}
 	spec := &Spec{
-		Seeds: []Seed{{"S0", seedS0()}, {"S1-six-names", append(seedS0(), Write("test/x", v1("test/x")), Write("test/y", v1("test/y")), Write("test.c", v1("test.c")),
+		Seeds: []Seed{{"S0", seedS0()}, {"S1-one-file", append(seedS0(), Write("t", v1("t")), Run("add", "t"), Run("commit", "-m", "c1"))}, {"S1-six-names", append(seedS0(), Write("test/x", v1("test/x")), Write("test/y", v1("test/y")), Write("test.c", v1("test.c")),
 			Write("test-data", v1("test-data")), Write("test0", v1("test0")), Write("t", v1("t")), Run("add", "test", "test.c", "test-data", "test0", "t"), Run("commit", "-m", "c1"))}},
 		Depth: e.pick(4, 6),
 		Steps: func(n *Node) []Step {
